@@ -62,6 +62,34 @@ instance (an ad bn bd : TV) : Decidable (MulGuard an ad bn bd) := by unfold MulG
 instance (an ad bn bd : TV) : Decidable (DivGuard an ad bn bd) := by unfold DivGuard; exact inferInstance
 instance (an ad bn bd : TV) : Decidable (CmpGuard an ad bn bd) := by unfold CmpGuard; exact inferInstance
 
+/-- `std::common_type_t` of two integer types (the type of `false ? m : n`) -/
+def commonTy (a b : IntTy) : IntTy := if a = b then a else usualArith a b
+
+/-- guard of `reduce` on numerator `n`, denominator `d` (typed): the components hold values of their
+types, the denominator is not zero, `std::gcd`'s precondition (both magnitudes representable in the
+common type; we also ask the values themselves to be) and both operands of the two divisions
+representable in the types the divisions are computed in -/
+structure ReduceGuard (n d : TV) : Prop where
+  nbits : 1 ≤ n.1.bits
+  dbits : 1 ≤ d.1.bits
+  nwf : n.1.InRange n.2
+  dwf : d.1.InRange d.2
+  dnz : d.2 ≠ 0
+  cn : (commonTy n.1 d.1).InRange n.2
+  cd : (commonTy n.1 d.1).InRange d.2
+  cna : (commonTy n.1 d.1).InRange n.2.natAbs
+  cda : (commonTy n.1 d.1).InRange d.2.natAbs
+  qn : (usualArith n.1 (commonTy n.1 d.1)).InRange n.2
+  qng : (usualArith n.1 (commonTy n.1 d.1)).InRange (Int.gcd n.2 d.2)
+  qd : (usualArith d.1 (commonTy n.1 d.1)).InRange d.2
+  qdg : (usualArith d.1 (commonTy n.1 d.1)).InRange (Int.gcd n.2 d.2)
+
+/-- guard of `canonical`: that of `reduce`, and the negated reduced parts are representable
+(they are the lowest terms when the denominator is negative) -/
+structure CanonGuard (n d : TV) : Prop extends ReduceGuard n d where
+  negn : d.2 < 0 → (usualArith n.1 (commonTy n.1 d.1)).InRange (-(n.2 / Int.gcd n.2 d.2))
+  negd : d.2 < 0 → (usualArith d.1 (commonTy n.1 d.1)).InRange (-(d.2 / Int.gcd n.2 d.2))
+
 /-- what a comparison operator must return on rationals -/
 def cmpRat (op : CmpOp) (p q : Rat) : Bool :=
   match op with
